@@ -87,6 +87,26 @@ CLAIMED = {
    note="Trusts Lean's kernel, parser. Blank-node relabelling and the tie-free equality of choices are validated, not proved. Finding F-C09-1 "
         "(ties decided by dictionary order).",
    technique="Lean 4 proof (permutation invariance of counts + R1) + metamorphic search", design="5/C09"),
+ "C10": dict(
+   text="Proof: for class targets / all-classes mode pass 1 equals the declarative selection as a list (subjects linked to a target class by the "
+        "configured instantiation property, first-occurrence order, classes in document order); only the configured instantiation property "
+        "selects; rdf:type is an ordinary property otherwise; node selectors denote the single node, {FOCUS p o} / {s p FOCUS} exactly the "
+        "subjects / objects of the matching triples, a node returned several times gets its label once; figures are exact for whatever the "
+        "selectors denote (R1 is parametric in the selection). Tie: Targets.resolve vs the implementation's instance dictionary; Shexer.runSel "
+        "vs the output. Search: selectors evaluated directly on the abstract triples; every printed figure recomputed by the Lean Spec.",
+   note="Trusts Lean's kernel, parser. String-level selector/label parsers are modelled and tested (#guard), FOCUS evaluation is rdflib's SPARQL "
+        "engine in the implementation (row order unspecified: the shapes are compared for the implementation's own dictionary order). SPARQL "
+        "selectors are restricted to single-pattern queries. Finding F-C10-2 (blank-node answers carry rdflib-internal labels).",
+   technique="Lean 4 proof (selection = declarative selection; selector denotations) + differential correspondence + Lean Spec oracle", design="5/C10"),
+ "C11": dict(
+   text="Proof: min/max counts (regenerated from the AST) equal the interval of the ShExC cardinality for every cardinality; no closure symbol is "
+        "ever written as a count; the node-kind table (regenerated) maps IRI/BNode/NONLITERAL to sh:IRI/sh:BlankNode/sh:BlankNodeOrIRI; one node "
+        "shape per shape with the same IRI and target class, one property shape per constraint with the same predicate, in order; direction "
+        "and counts preserved. Tie: Shacl.emit vs the parsed SHACL Turtle. Search: the two serialisations of one Shaper compared per shape as "
+        "multisets of (direction, predicate, restriction, min, max).",
+   note="Trusts Lean's kernel, extract.py, rdflib as Turtle parser/serialiser. Finding F-C05-3 (rdflib omits '@prefix rdf:' when rdf:type is "
+        "a path object).",
+   technique="Lean 4 proof over AST-generated tables + differential correspondence + cross-serialisation oracle", design="5/C11"),
 }
 PENDING_REASON = "check not built yet (work in progress; see DESIGN.md section 9 for the build order)"
 
